@@ -4,7 +4,7 @@ from lib import core
 
 ID = 'C11'
 UNITS = ['chord_cmp', 'chord_label']
-TRANSLATORS = ['chordre', 'tables', 'chordrules']
+TRANSLATORS = ['chordre', 'tables', 'chordrules', 'chordparse']
 NOT_COVERED = 'vectorised evaluation over label lists longer than 1 is tied by a separate list-level sample in the oracle, not by the per-pair unit'
 ASSUMPTIONS = ['NumPy elementwise equality / any / all / boolean-mask assignment as modelled']
 
